@@ -497,7 +497,7 @@ var genOnce sync.Once
 
 func gen() {
 	genOnce.Do(func() {
-		out, err := run(verifDir, goEnv(), filepath.Join(verifDir, "bin", "vgen"), "-out", buildDir, "-repo", repoDir)
+		out, err := run(verifDir, goEnv(), filepath.Join(verifDir, "bin", envOr("VERIF_VGEN", "vgen")), "-out", buildDir, "-repo", repoDir)
 		if err != nil {
 			die(2, "vgen failed: %v\n%s", err, out)
 		}
